@@ -571,7 +571,16 @@ func Reader(data any, selectors []any) (any, error) {
 						switch selector.GetType() {
 						case NONE:
 							{
-								copy[selector.GetKey()] = data[selector.GetKey()]
+								value := data[selector.GetKey()]
+								// a key that names a CTE yields the CTE's rows, not its lazy thunk
+								if lazy, ok := value.(CteEvaluation); ok {
+									rs, err := lazy()
+									if err != nil {
+										return nil, err
+									}
+									value = rs
+								}
+								copy[selector.GetKey()] = value
 							}
 						case STRING:
 							{
